@@ -198,3 +198,803 @@ def scan_feed():
 
 def gen_all(ctx):
     ctx.gen('Threads', gen_threads_text())
+
+
+# ---------------------------------------------------------------------------------------- exact arithmetic
+def F(r):
+    """exact rational of a double sent as [numerator, denominator]; None for nan / inf"""
+    if isinstance(r, list) and len(r) == 2:
+        return Fraction(r[0], r[1])
+    return None
+
+
+def Fl(rs):
+    out = [F(r) for r in rs]
+    return None if any(v is None for v in out) else out
+
+
+def to_float(fr):
+    return fr.numerator / fr.denominator      # correctly rounded (int / int true division)
+
+
+def val(p):
+    """value of a part() result, or None"""
+    return p['v'] if isinstance(p, dict) and p.get('ok') else None
+
+
+TINY = Fraction(1, 2 ** 1000)
+
+
+def sum_bound(n, absum, mults):
+    """Error bound of a floating-point sum of n terms, each term the rounded product of `mults`+1 doubles.
+
+    Recursive summation of n doubles IN ANY ORDER AND ANY BRACKETING (sequential inside each thread's block,
+    then sequential over the threads' partial results; or part by part) returns sum x_i (1 + t_i) with
+    |t_i| <= gamma_{n-1} = (n-1)u / (1 - (n-1)u), u = 2^-53 [Higham, Accuracy and Stability of Numerical
+    Algorithms, 2nd ed., section 4.2: the bound holds for every ordering]; adding the first term to the
+    initial 0.0 is exact.  Hence |computed - sum x_i| <= gamma_{n-1} sum|x_i|; we allow 8 (n-1) u sum|x_i|
+    (covers gamma vs (n-1)u and the fact that sum|x_i| is evaluated on the unrounded terms).
+    Each term x_i is itself the rounding of a product of mults+1 doubles (w*f: one multiplication,
+    w*g_i*g_j: two): |x_i - exact_i| <= ((1+u)^mults - 1) |exact_i| <= 2 mults u |exact_i| (no underflow: the
+    magnitudes are between 2^-40 and 2^20).  Total: (8 (n-1) + 2 mults) u sum|exact_i|.
+    With no weight formula the engine adds f itself (mults = 0 would do); we keep mults >= 1 so that a
+    one-row table has a bound of 2 ulp instead of exact equality."""
+    return (8 * (n - 1) + 2 * max(1, mults)) * U53 * absum + TINY
+
+
+def close_scaled(scaled_v, v, N):
+    """scaled = fl(v / N): one rounding"""
+    if scaled_v is None or v is None or not N:
+        return False
+    q = v / N
+    return abs(scaled_v - q) <= 2 * U53 * abs(q) + TINY
+
+
+# ---------------------------------------------------------------------------------------- generator
+SCALE = 16
+T_KINDS = ['1', '2', '3', 'n-1', 'n', 'n+3', '0']
+
+
+def gen_table(rng, n, model):
+    hi = 3 if model == 3 else 2
+    cols = {k: [rng.randint(-64, 64) for _ in range(n)] for k in ('x1', 'x2', 'x3')}
+    cols['ch'] = [rng.randint(1, hi) * SCALE for _ in range(n)]
+    style = rng.random()
+    if style < 0.6:
+        cols['w'] = [rng.randint(1, 64) for _ in range(n)]
+    elif style < 0.8:      # wide dynamic range: 2^-4 .. 2^10
+        cols['w'] = [2 ** rng.randint(0, 14) for _ in range(n)]
+    else:                  # many equal weights and a few large ones
+        cols['w'] = [16 if rng.random() < 0.8 else rng.randint(100, 4000) for _ in range(n)]
+    cols['w2'] = [rng.randint(1, 32) for _ in range(n)]
+    return cols
+
+
+def thread_list(n, rng):
+    ts = {'1': 1, '2': 2, '3': 3, 'n-1': max(1, n - 1), 'n': n, 'n+3': n + 3, '0': 0}
+    out = []
+    for k in T_KINDS:
+        out.append([ts[k], 'params' if rng.random() < 0.3 else 'kw'])
+    return out
+
+
+def gen_split(rng, n):
+    k = rng.randint(2, min(4, n))
+    rows = list(range(n))
+    mode = rng.random()
+    if mode < 0.4:      # contiguous
+        cuts = sorted(rng.sample(range(1, n), k - 1))
+        parts = [rows[a:b] for a, b in zip([0] + cuts, cuts + [n])]
+    elif mode < 0.7:    # interleaved
+        parts = [rows[i::k] for i in range(k)]
+    else:               # random assignment, every part non-empty, rows shuffled inside the parts
+        rng.shuffle(rows)
+        cuts = sorted(rng.sample(range(1, n), k - 1))
+        parts = [rows[a:b] for a, b in zip([0] + cuts, cuts + [n])]
+    return parts
+
+
+def gen_case(rng, i, n=None):
+    if n is None:
+        r = rng.random()
+        n = rng.randint(1, 5) if r < 0.2 else rng.randint(6, 16) if r < 0.6 else rng.randint(17, 40)
+    model = rng.choice([1, 2, 2, 3])
+    betas = {f'b{k + 1}': rng.randint(-32, 32) for k in range(model)}
+    c = {'kind': 'table', 'id': i, 'scale': SCALE, 'model': model, 'betas': betas,
+         'weight': rng.choice([None, 'w', 'w', 'wexpr']), 'cols': gen_table(rng, n, model),
+         'threads': thread_list(n, rng), 'perms': [], 'splits': []}
+    if n >= 2:
+        for _ in range(rng.randint(2, 3)):
+            p = list(range(n))
+            m = rng.random()
+            if m < 0.25:
+                p.reverse()
+            elif m < 0.4:
+                p = p[1:] + p[:1]
+            else:
+                rng.shuffle(p)
+            c['perms'].append({'perm': p, 'T': rng.choice([1, 2, 3, max(1, n - 1), n, n + 3, 0])})
+        for _ in range(rng.randint(1, 2)):
+            parts = gen_split(rng, n)
+            c['splits'].append({'parts': parts, 'Ts': [rng.choice([1, 2, 3, len(p), len(p) + 3, 0]) for p in parts]})
+        if n <= 8 and rng.random() < 0.5:     # the finest split: one row per part
+            c['splits'].append({'parts': [[r] for r in range(n)], 'Ts': [rng.choice([1, 2, 0]) for _ in range(n)]})
+    if rng.random() < 0.25:
+        c['negative'] = rng.choice([1, 2, 3])
+    return c
+
+
+def load_corpus():
+    out = []
+    d = VERIF / 'corpus' / 'C04'
+    if d.is_dir():
+        for p in sorted(d.glob('*.json')):
+            try:
+                j = json.loads(p.read_text())
+            except Exception as e:  # noqa
+                raise RuntimeError(f'corpus file {p} unreadable: {e}')
+            for c in (j if isinstance(j, list) else [j]):
+                c['corpus'] = p.name
+                out.append(c)
+    return out
+
+
+def witness(c, **kw):
+    w = {k: c[k] for k in ('kind', 'scale', 'model', 'betas', 'weight', 'cols') if k in c}
+    w['table'] = 'cell value = cols[name][row] / scale; weights: ' + ('none (weight one)' if not c.get('weight') else
+                  'column w' if c['weight'] == 'w' else 'w*0.5 + w2')
+    w.update(kw)
+    return w
+
+
+HOW = ('PYTHONPATH=/repo/src /venv/bin/python /verif/lib/impl/c04_ll.py <<< \'{"cases": [<witness case>]}\' in a scratch '
+       'directory, or ./check C04 --replay <this file>')
+
+
+# ---------------------------------------------------------------------------------------- oracle
+class Base:
+    """exact per-row values of the base table: weights and log likelihood from simulate, derivatives from the
+    disaggregated evaluator"""
+
+    def __init__(self, c, sim, rows):
+        self.ok = False
+        self.why = ''
+        if sim is None or 'log_like' not in sim:
+            self.why = 'simulate did not report log_like'
+            return
+        self.f = Fl(sim['log_like'])
+        self.n = len(sim['log_like'])
+        if c.get('weight'):
+            if 'weight' not in sim:
+                self.why = 'simulate did not report the weight formula'
+                return
+            self.w = Fl(sim['weight'])
+        else:
+            self.w = [Fraction(1)] * self.n
+        if self.f is None or self.w is None:
+            self.why = 'non-finite per-row value'
+            return
+        self.k = len(c['betas'])
+        self.g = self.h = self.b = None
+        if rows is not None:
+            self.g = [Fl(r) for r in rows['g']]
+            self.h = [Fl(r) for r in rows['h']]
+            self.rf = Fl(rows['f'])
+            if any(v is None for v in self.g) or any(v is None for v in self.h) or self.rf is None:
+                self.why = 'non-finite per-row derivative'
+                return
+        self.ok = True
+
+    def exact(self, what, rows):
+        """(exact sums, sums of absolute values, number of multiplications per term) of the vector `what` over rows"""
+        if what == 'f':
+            terms = [[self.w[r] * self.f[r]] for r in rows]
+            m = 1
+        elif what == 'g':
+            terms = [[self.w[r] * x for x in self.g[r]] for r in rows]
+            m = 1
+        elif what == 'h':
+            terms = [[self.w[r] * x for x in self.h[r]] for r in rows]
+            m = 1
+        else:
+            terms = [[self.w[r] * gi * gj for gi in self.g[r] for gj in self.g[r]] for r in rows]
+            m = 2
+        d = len(terms[0])
+        return ([sum(t[j] for t in terms) for j in range(d)], [sum(abs(t[j]) for t in terms) for j in range(d)], m)
+
+
+def cmp_vec(observed, exact, absum, n, m):
+    """index of the first entry outside the bound, or None"""
+    if observed is None or len(observed) != len(exact):
+        return -1
+    for j, (o, e, a) in enumerate(zip(observed, exact, absum)):
+        if abs(o - e) > sum_bound(n, a, m):
+            return j
+    return None
+
+
+def check_eval(ctx, c, base, e, label, key, extra):
+    """property oracle on everything one BIOGEME object reported (table = rows e['rows'] of the base table).
+    Returns the dict of exact rationals of its totals (for sums over parts), or None."""
+    rows = e['rows']
+    n = len(rows)
+    wit = witness(c, rows_of_the_table=rows, T=e.get('T'), where=label, **extra)
+
+    def bad(sub, what, expected, observed):
+        ctx.violation(f'C04/{key}/{sub}', f'{label}: {what}', wit, expected, observed, HOW)
+
+    if 'build' in e:
+        bad('exception', 'BIOGEME could not be built on a valid table: ' + str(e['build'])[:200], 'an object', e['build'])
+        return None
+    for k in ('Tres', 'N', 'f0', 'sim', 'f1', 'fs') + (('d', 'ds', 'fg', 'f2') if 'd' in e else ()):
+        if not e[k]['ok']:
+            bad('exception', f'{k} raised on a valid table: {e[k].get("exc")}: {e[k].get("msg")}', 'a value', e[k])
+            return None
+    N = val(e['N'])
+    if N != n:
+        bad('sample-size', f'sample size {N} for a table of {n} rows', n, N)
+    own = Base(c, val(e['sim']), None)
+    if not own.ok:
+        bad('simulate', 'simulate: ' + own.why, 'finite per-row values', str(val(e['sim']))[:300])
+        return None
+    if own.n != n:
+        bad('simulate', f'simulate reported {own.n} rows for a table of {n} rows', n, own.n)
+        return None
+    # (1) total = sum of weight x the value simulate reports, on this very object
+    ex, ab, m = own.exact('f', range(n))
+    tot = {}
+    for k in ('f0', 'f1') + (('f2',) if 'd' in e else ()):
+        v = F(val(e[k]))
+        if v is None or abs(v - ex[0]) > sum_bound(n, ab[0], m):
+            bad('total-vs-simulate', f'calculate_likelihood ({k}) is not within the summation bound of sum w_r * simulate_r',
+                {'exact_sum': str(ex[0]), 'approx': to_float(ex[0]), 'bound': to_float(sum_bound(n, ab[0], m))},
+                {'value': val(e[k]), 'approx': None if v is None else to_float(v)})
+            return None
+    f = F(val(e['f0']))
+    tot['f'] = [f]
+    # (2) per-row values do not depend on where the row sits: simulate of this table = base values of its rows
+    for i, r in enumerate(rows):
+        for name, a, b in (('log_like', own.f[i], base.f[r]), ('weight', own.w[i], base.w[r])):
+            if abs(a - b) > 4 * U53 * abs(b) + TINY:
+                bad('row-value', f'simulate reports another {name} for row {r} of the original table (position {i} here)',
+                    to_float(b), to_float(a))
+                return None
+    # (3) the same total as the exact sum over the ORIGINAL table's rows (thread count / permutation / split)
+    exb, abb, m = base.exact('f', rows)
+    if abs(f - exb[0]) > sum_bound(n, abb[0], m):
+        bad('invariance', 'total differs from the exact weighted sum of the original per-row values beyond the bound',
+            to_float(exb[0]), to_float(f))
+    # (4) scaled = total / N
+    if not close_scaled(F(val(e['fs'])), f, N):
+        bad('scaled', 'scaled likelihood is not total / sample size', to_float(f / N) if N else None, val(e['fs']))
+    if 'd' not in e:
+        return tot
+    d, ds, fg = val(e['d']), val(e['ds']), val(e['fg'])
+    k = base.k
+    if e.get('free') != sorted(c['betas']):
+        bad('parameters', 'free parameters are not the sorted names', sorted(c['betas']), e.get('free'))
+        return tot
+    fd = F(d['f'])
+    if fd is None or abs(fd - ex[0]) > sum_bound(n, ab[0], 1):
+        bad('total-vs-simulate', 'calculate_likelihood_and_derivatives: function value not within the bound of sum w_r * simulate_r',
+            to_float(ex[0]), d['f'])
+    ffg = F(fg['f'])
+    if ffg is None or abs(ffg - ex[0]) > sum_bound(n, ab[0], 1):
+        bad('total-vs-simulate', 'calculate_likelihood_and_derivatives(hessian=False, bhhh=False): function value not within the bound',
+            to_float(ex[0]), fg['f'])
+    for what, name, obs_raw in (('g', 'gradient', d['g']), ('h', 'hessian', d['h']), ('b', 'bhhh', d['b']), ('g', 'gradient (no hessian)', fg['g'])):
+        obs = Fl(obs_raw)
+        exv, abv, m = base.exact(what, rows)
+        j = cmp_vec(obs, exv, abv, n, m)
+        if j is not None:
+            bad('derivatives', f'{name}: entry {j} is not within the summation bound of the weighted sum of the per-row values',
+                [to_float(v) for v in exv], obs_raw if obs is None else [to_float(v) for v in obs])
+            return tot
+        if name in ('gradient', 'hessian', 'bhhh'):
+            tot[what] = obs
+    # scaled derivatives
+    for what, name in (('f', 'function'), ('g', 'gradient'), ('h', 'hessian'), ('b', 'bhhh')):
+        o = Fl([ds[what]] if what == 'f' else ds[what])
+        u = [fd] if what == 'f' else Fl(d[what])
+        if o is None or u is None or len(o) != len(u) or not all(close_scaled(a, b, N) for a, b in zip(o, u)):
+            bad('scaled', f'scaled {name} is not the unscaled one divided by the sample size', None, ds[what])
+            break
+    return tot
+
+
+def check_table(ctx, c, r, st_ll, st_part, part_items):
+    """one 'table' case: oracles + collection of the partition observations"""
+    key = 'll'
+    if r is None or 'crash' in r or 'runner' in r:
+        ctx.violation('C04/ll/crash', 'the implementation died / the runner failed on a valid table', witness(c), 'results', r, HOW)
+        return
+    n = r['n']
+    evs = r['evals']
+    if not r['rows']['ok']:
+        ctx.violation('C04/ll/exception', 'disaggregated evaluation raised on a valid table', witness(c), 'per-row values', r['rows'], HOW)
+        return
+    first = evs[0]
+    base = Base(c, val(first.get('sim')) if 'sim' in first else None, val(r['rows']))
+    if not base.ok:
+        ctx.violation('C04/ll/simulate', 'simulate / per-row evaluation on the base table: ' + base.why, witness(c, T=first.get('T')),
+                      'finite per-row values', str(first.get('sim'))[:300], HOW)
+        return
+    # the two per-row paths agree on the function value
+    for i in range(n):
+        if abs(base.rf[i] - base.f[i]) > 4 * U53 * abs(base.f[i]) + TINY:
+            st_ll.disagree(witness(c, row=i), to_float(base.f[i]), to_float(base.rf[i]),
+                           'disaggregated evaluator and simulate report different log likelihoods for one row')
+            break
+    for e in evs:
+        st_ll.record({'id': c.get('id'), 'n': n, 'T': e['T'], 'w': c['weight'], 'm': c['model'], 'what': 'threads',
+                      'h': hash_cols(c)}, nontrivial=n >= 2)
+        check_eval(ctx, c, base, e, f'thread count {e["T"]} (via {e["via"]})', key + '/threads', {})
+        # observation for the partition stream
+        if e.get('Tres', {}).get('ok') and e.get('f0', {}).get('ok') and 'd' in e and e['d']['ok']:
+            part_items.append((c, n, val(e['Tres']), e, base))
+    for p, e in zip(c.get('perms', []), r['perms']):
+        st_ll.record({'id': c.get('id'), 'n': n, 'T': e['T'], 'perm': p['perm'], 'h': hash_cols(c)},
+                     nontrivial=p['perm'] != list(range(n)))
+        check_eval(ctx, c, base, e, f'rows permuted, thread count {e["T"]}', key + '/permutation', {'permutation': p['perm']})
+    for s, es in zip(c.get('splits', []), r['splits']):
+        st_ll.record({'id': c.get('id'), 'n': n, 'split': s['parts'], 'Ts': s['Ts'], 'h': hash_cols(c)}, nontrivial=len(s['parts']) >= 2)
+        tots = [check_eval(ctx, c, base, e, f'part {i} of a {len(es)}-way split, thread count {e["T"]}', key + '/split',
+                           {'split': s['parts'], 'thread_counts': s['Ts']}) for i, e in enumerate(es)]
+        if any(t is None or len(t) < 4 for t in tots):
+            continue
+        allrows = [x for prt in s['parts'] for x in prt]
+        for what, name in (('f', 'log likelihood'), ('g', 'gradient'), ('h', 'hessian'), ('b', 'bhhh')):
+            exv, abv, m = base.exact(what, allrows)
+            summed = [sum(t[what][j] for t in tots) for j in range(len(exv))]
+            j = cmp_vec(summed, exv, abv, n, m)
+            if j is not None:
+                ctx.violation(f'C04/ll/split/sum-{what}', f'sum over the parts of the {name} differs from the weighted sum over all rows (entry {j})',
+                              witness(c, split=s['parts'], thread_counts=s['Ts']), [to_float(v) for v in exv],
+                              [to_float(v) for v in summed], HOW)
+                break
+    if 'negative' in r:
+        ng = r['negative']
+        e0 = next((e for e in evs if 'd' in e and e['d']['ok']), None)
+        if not ng['ok']:
+            ctx.violation('C04/ll/negative/exception', 'NegativeLikelihood raised', witness(c, T=c['negative']), 'values', ng, HOW)
+        elif e0 is not None:
+            v = ng['v']
+            exf, abf, _ = base.exact('f', range(n))
+            exg, abg, _ = base.exact('g', range(n))
+            exh, abh, _ = base.exact('h', range(n))
+            okk = all(F(v[k]) is not None and abs(-F(v[k]) - exf[0]) <= sum_bound(n, abf[0], 1) for k in ('f', 'fg_f', 'fgh_f'))
+            okk = okk and cmp_vec([-x for x in (Fl(v['fg_g']) or [])], exg, abg, n, 1) is None
+            okk = okk and cmp_vec([-x for x in (Fl(v['fgh_g']) or [])], exg, abg, n, 1) is None
+            okk = okk and cmp_vec([-x for x in (Fl(v['fgh_h']) or [])], exh, abh, n, 1) is None
+            if not okk:
+                ctx.violation('C04/ll/negative/value', 'the function given to the optimiser is not minus the unscaled weighted sums',
+                              witness(c, T=c['negative']), {'f': to_float(-exf[0])}, v, HOW)
+
+
+def hash_cols(c):
+    from common import sha
+    return sha([c['cols'], c['betas'], c['model'], c['weight']])
+
+
+# ---------------------------------------------------------------------------------------- partition stream
+def emulate(terms, bounds):
+    """IEEE-754 double arithmetic (Python floats): per block sequential sum from 0.0, then the partial sums
+    added in block order from 0.0 -- the model's thread_sum / join on doubles"""
+    tot = 0.0
+    for s, e in bounds:
+        p = 0.0
+        for r in range(s, e):
+            p += terms[r]
+        tot += p
+    return tot
+
+
+def naive_bounds(n, T):
+    """what a different (wrong) partition would be: floor-sized blocks, remainder to the last thread"""
+    T = min(T, n)
+    size = n // T
+    return [(t * size, n if t == T - 1 else (t + 1) * size) for t in range(T)]
+
+
+def stream_partition(ctx, items):
+    st = ctx.stream('partition_observed',
+                    'the engine total (function value and every gradient entry) re-computed in IEEE double arithmetic under the '
+                    'MODEL partition blocks n T (evaluated in Coq) must be the very double the engine returned; '
+                    'non-trivial = the same re-computation under a single block or under floor-sized blocks gives another double '
+                    '(so the agreement discriminates between partitions); distinct by (table, weights, T)')
+    pairs = sorted({(n, T) for (_, n, T, _, _) in items})
+    if not pairs:
+        ctx.stream_broken('partition_observed', 'no observation collected')
+        return
+    files = {}
+    B = 400
+    for i in range(0, len(pairs), B):
+        chunk = pairs[i:i + B]
+        files[f'part_{i // B}'] = ('From Coq Require Import ZArith List.\nFrom BV Require Import Model.LogLike.\nImport ListNotations.\n'
+                                   'Open Scope Z_scope.\nDefinition cases : list (Z * Z) := '
+                                   + coq_list([f'({n}, {T})' for n, T in chunk]) + '.\n'
+                                   'Eval vm_compute in (map (fun c => bounds_flat (fst c) (snd c)) cases).\n')
+    outs = ctx.coq_eval_many(files)
+    model = {}
+    for name, (ok, out) in outs.items():
+        i0 = int(name.split('_')[1]) * B
+        chunk = pairs[i0:i0 + B]
+        body = None
+        if ok and '=' in out:
+            txt = out[out.index('=') + 1:]
+            txt = txt[:txt.rindex(':')] if ':' in txt else txt
+            try:
+                body = json.loads(txt.replace(';', ','))
+            except Exception:  # noqa
+                body = None
+        if body is None or len(body) != len(chunk):
+            ctx.stream_broken('partition_observed', 'model evaluation failed: ' + out[-400:])
+            return
+        for pr, flat in zip(chunk, body):
+            model[pr] = list(zip(flat[0::2], flat[1::2]))
+    for c, n, T, e, base in items:
+        bounds = model[(n, T)]
+        cov = [r for s, en in bounds for r in range(s, en)]
+        if cov != list(range(n)):
+            st.disagree({'n': n, 'T': T}, 'a partition of the rows', bounds, 'model blocks are not a partition (contradicts T04a)')
+            continue
+        w = [to_float(x) for x in base.w]
+        weighted = bool(c.get('weight'))
+        vecs = [('f', [to_float(x) for x in base.f], to_float(F(val(e['f0']))))]
+        dg = Fl(val(e['d'])['g'])
+        for k in range(base.k):
+            vecs.append((f'g{k}', [to_float(base.g[r][k]) for r in range(n)], to_float(dg[k])))
+        nontriv = False
+        for name, per_row_v, engine_v in vecs:
+            terms = [wi * v for wi, v in zip(w, per_row_v)] if weighted else per_row_v
+            mine = emulate(terms, bounds)
+            if emulate(terms, [(0, n)]) != mine or emulate(terms, naive_bounds(n, T)) != mine:
+                nontriv = True
+            if mine.hex() != engine_v.hex():
+                st.disagree(witness(c, T=T, quantity=name), {'blocks': bounds, 'recomputed': mine.hex()}, engine_v.hex(),
+                            'engine total is not the double obtained with the modelled partition')
+                break
+        st.record({'n': n, 'T': T, 'h': hash_cols(c)}, nontrivial=nontriv)
+    if st.disagreements:
+        ctx.stream_broken('partition_observed', f'{len(st.disagreements)} disagreements, first: '
+                          + json.dumps(st.disagreements[0], default=str)[:1200])
+
+
+# ---------------------------------------------------------------------------------------- rethread / bootstrap
+RETHREAD_PAIRS = [[4, 2], [2, 4], [1, 16], [3, 0], [10, 1]]
+
+
+def check_rethread(ctx, c, r, st):
+    if r is None or 'crash' in r or 'runner' in r:
+        ctx.violation('C04/rethread/crash', 'the process died after the thread count was changed through the setter '
+                      '(old -> new, simulate, calculate_likelihood)', witness(c, pairs=c['pairs']), 'the same total', r, HOW)
+        return
+    n = r['n']
+    for p in r['pairs']:
+        tag = f'{p["old"]}->{p["new"]}'
+        st.record({'n': n, 'pair': tag, 'h': hash_cols(c)}, nontrivial=p['old'] != p['new'])
+        wit = witness(c, old_thread_count=p['old'], new_thread_count=p['new'],
+                      steps='BIOGEME(number_of_threads=old); calculate_likelihood; obj.number_of_threads = new; simulate; calculate_likelihood')
+        bad_part = next((k for k in ('build', 'f0', 'set', 'sim', 'f1', 'fs', 'd', 'N') if k in p and not p[k]['ok']), None)
+        if bad_part:
+            ctx.violation(f'C04/rethread/{tag}/exception', f'{bad_part} raised after changing the thread count {tag}', wit,
+                          'the same total as before', p[bad_part], HOW)
+            continue
+        base = Base(c, val(p['sim']), val(r['rows']) if r['rows']['ok'] else None)
+        if not base.ok or base.n != n:
+            ctx.violation(f'C04/rethread/{tag}/simulate', 'simulate after the change: ' + (base.why or 'wrong number of rows'), wit, n, str(p['sim'])[:200], HOW)
+            continue
+        ex, ab, m = base.exact('f', range(n))
+        for k in ('f0', 'f1'):
+            v = F(val(p[k]))
+            if v is None or abs(v - ex[0]) > sum_bound(n, ab[0], m):
+                ctx.violation(f'C04/rethread/{tag}/total', f'{k}: after changing the thread count {tag} and simulating, the log likelihood '
+                              'is not the weighted sum over all rows', wit, to_float(ex[0]), val(p[k]), HOW)
+                break
+        else:
+            if not close_scaled(F(val(p['fs'])), F(val(p['f1'])), val(p['N'])):
+                ctx.violation(f'C04/rethread/{tag}/scaled', 'scaled value is not total / N', wit, None, val(p['fs']), HOW)
+            d = val(p['d'])
+            fd = F(d['f'])
+            if fd is None or abs(fd - ex[0]) > sum_bound(n, ab[0], 1):
+                ctx.violation(f'C04/rethread/{tag}/total', 'calculate_likelihood_and_derivatives after the change', wit, to_float(ex[0]), d['f'], HOW)
+            elif base.g is not None:
+                for what in ('g', 'h', 'b'):
+                    exv, abv, mm = base.exact(what, range(n))
+                    if cmp_vec(Fl(d[what]), exv, abv, n, mm) is not None:
+                        ctx.violation(f'C04/rethread/{tag}/derivatives', f'{what} after the change is not the weighted sum over all rows',
+                                      wit, [to_float(v) for v in exv], d[what], HOW)
+                        break
+
+
+def check_bootstrap(ctx, c, r, st):
+    wit = witness(c, T=c['T'], bootstrap_samples=c['samples'], seed=c['seed'],
+                  steps='simulate; calculate_likelihood; estimate(run_bootstrap=True); calculate_likelihood; simulate')
+    if r is None or 'crash' in r or 'runner' in r:
+        ctx.violation('C04/bootstrap/crash', 'the process died', wit, 'results', r, HOW)
+        return None
+    n = r['n']
+    for k in ('build', 'sim_before', 'f_before'):
+        if k in r and not r[k]['ok']:
+            ctx.violation('C04/bootstrap/exception', f'{k} raised', wit, 'a value', r[k], HOW)
+            return None
+    if not r['estimate']['ok'] or val(r['estimate'])['nboot'] != c['samples']:
+        return False          # the estimation itself failed on this table: not a statement of C04
+    st.record({'n': n, 'T': c['T'], 'samples': c['samples'], 'h': hash_cols(c)}, nontrivial=True)
+    for k in ('f_after', 'fs_after', 'd_after', 'sim_after', 'N'):
+        if not r[k]['ok']:
+            ctx.violation('C04/bootstrap/exception', f'{k} raised after the bootstrap run', wit, 'a value', r[k], HOW)
+            return True
+    base = Base(c, val(r['sim_before']), val(r['rows']) if r['rows']['ok'] else None)
+    after = Base(c, val(r['sim_after']), None)
+    if not base.ok or not after.ok or base.n != n or after.n != n:
+        ctx.violation('C04/bootstrap/simulate', 'simulate before / after the bootstrap run: ' + (base.why or after.why or 'wrong number of rows'),
+                      wit, n, None, HOW)
+        return True
+    ex, ab, m = base.exact('f', range(n))
+    fb, fa = F(val(r['f_before'])), F(val(r['f_after']))
+    if fb is None or abs(fb - ex[0]) > sum_bound(n, ab[0], m):
+        ctx.violation('C04/bootstrap/before', 'log likelihood before estimation is not the weighted sum', wit, to_float(ex[0]), val(r['f_before']), HOW)
+    if fa is None or abs(fa - ex[0]) > sum_bound(n, ab[0], m):
+        ctx.violation('C04/bootstrap/after', 'after estimate(run_bootstrap=True) the log likelihood at the same parameters is no longer the '
+                      'weighted sum over the rows of the data set (the engine is not evaluating the estimation data)',
+                      wit, {'before': val(r['f_before']), 'exact_sum': to_float(ex[0])}, {'after': val(r['f_after'])}, HOW)
+        return True
+    for i in range(n):
+        if abs(after.f[i] - base.f[i]) > 4 * U53 * abs(base.f[i]) + TINY or abs(after.w[i] - base.w[i]) > 4 * U53 * abs(base.w[i]) + TINY:
+            ctx.violation('C04/bootstrap/simulate-after', f'simulate after the bootstrap run reports another value for row {i}', wit,
+                          to_float(base.f[i]), to_float(after.f[i]), HOW)
+            return True
+    if not close_scaled(F(val(r['fs_after'])), fa, val(r['N'])):
+        ctx.violation('C04/bootstrap/scaled', 'scaled value after the bootstrap run is not total / N', wit, None, val(r['fs_after']), HOW)
+    d = val(r['d_after'])
+    if base.g is not None:
+        for what in ('g', 'h', 'b'):
+            exv, abv, mm = base.exact(what, range(n))
+            if cmp_vec(Fl(d[what]), exv, abv, n, mm) is not None:
+                ctx.violation('C04/bootstrap/derivatives', f'{what} after the bootstrap run is not the weighted sum over the rows', wit,
+                              [to_float(v) for v in exv], d[what], HOW)
+                break
+    return True
+
+
+def gen_bootstrap_case(rng, i):
+    n = rng.randint(30, 60)
+    cols = gen_table(rng, n, 2)
+    # a choice that depends on the attributes, so that the estimation is well behaved
+    cols['ch'] = [(1 if (cols['x1'][r] - cols['x2'][r] + rng.randint(-60, 60)) > 0 else 2) * SCALE for r in range(n)]
+    cols['w'] = [rng.randint(8, 32) for _ in range(n)]
+    return {'kind': 'bootstrap', 'id': f'boot{i}', 'scale': SCALE, 'model': 2, 'betas': {'b1': rng.randint(-8, 8), 'b2': rng.randint(-8, 8)},
+            'weight': rng.choice([None, 'w']), 'cols': cols, 'T': rng.choice([1, 2, 3, 0]), 'samples': rng.randint(2, 4),
+            'seed': rng.randint(1, 10 ** 6)}
+
+
+# ---------------------------------------------------------------------------------------- stream ll_vs_simulate
+LL_RULE = ('generated tables (1-40 rows, dyadic cells k/16), logit log likelihood with 1-3 parameters at dyadic parameter points, weight '
+           'column / weight expression / none; every table evaluated with thread counts {1,2,3,n-1,n,n+3,0=cpu count} (given through the '
+           'BIOGEME keyword or a Parameters object), on 2-3 row permutations and on 1-3 splits into 2-4 parts (and the one-row-per-part '
+           'split for n<=8); after changing the thread count through the setter; before / after estimate(run_bootstrap=True). '
+           'Oracle: calculate_likelihood and calculate_likelihood_and_derivatives (f, g, h, bhhh; scaled and not) within '
+           '(8(n-1)+2k) 2^-53 sum|terms| of the EXACT rational sum of weight x per-row value (simulate for f and the weight; the '
+           'disaggregated evaluator for the derivatives). One evaluation = one BIOGEME object; non-trivial = at least 2 rows (threads), '
+           'a non-identity permutation, at least 2 parts; distinct by (table, weights, parameters, thread count / permutation / split)')
+
+
+def stream_ll(ctx, only=None, n_cases=None, with_partition=True):
+    st = ctx.stream('ll_vs_simulate', LL_RULE)
+    rng = ctx.sub_rng('ll_vs_simulate')
+    if only is not None:
+        cases = only
+    else:
+        cases = load_corpus()
+        ngen = n_cases if n_cases is not None else ctx.n(70, 1200)
+        cases += [gen_case(rng, i) for i in range(ngen)]
+        # every size from 1 to 12 at least once (small tables exercise T > n)
+        cases += [gen_case(rng, 10000 + n, n=n) for n in range(1, 13)]
+        for i in range(ctx.n(2, 8)):
+            base = gen_case(rng, 20000 + i, n=rng.choice([5, 10, 11, 16, 23]))
+            cases.append({'kind': 'rethread', 'id': f'rt{i}', 'pairs': RETHREAD_PAIRS + [[rng.randint(1, 20), rng.randint(0, 20)] for _ in range(2)],
+                          **{k: base[k] for k in ('scale', 'model', 'betas', 'weight', 'cols')}})
+        cases += [gen_bootstrap_case(rng, i) for i in range(ctx.n(2, 6))]
+    t0 = time.time()
+    # rethread / bootstrap cases first and in chunks of their own (a reverted fix kills the process / is slow)
+    special = [c for c in cases if c['kind'] != 'table']
+    tables = [c for c in cases if c['kind'] == 'table']
+    res_special = ctx.impl_cases('c04_ll.py', special, chunk=1, timeout=600) if special else []
+    res_tables = ctx.impl_cases('c04_ll.py', tables, chunk=max(1, min(12, len(tables) // 16 + 1)), timeout=900) if tables else []
+    part_items = []
+    for c, r in zip(tables, res_tables):
+        check_table(ctx, c, r, st, None, part_items)
+    boot_ok = 0
+    boot_corpus_failed = []
+    for c, r in zip(special, res_special):
+        if c['kind'] == 'rethread':
+            check_rethread(ctx, c, r, st)
+        elif c['kind'] == 'bootstrap':
+            ok = check_bootstrap(ctx, c, r, st)
+            boot_ok += 1 if ok else 0
+            if ok is False and c.get('corpus'):
+                boot_corpus_failed.append(c['corpus'])
+    st.extra['wall_s'] = round(time.time() - t0, 1)
+    st.extra['bootstrap_cases_estimated'] = boot_ok
+    if only is None and (boot_ok == 0 or boot_corpus_failed):
+        ctx.stream_broken('ll_vs_simulate', f'no bootstrap case could be estimated / corpus bootstrap case failed to estimate: {boot_corpus_failed}')
+    if st.disagreements:
+        ctx.stream_broken('ll_vs_simulate', f'{len(st.disagreements)} disagreements, first: ' + json.dumps(st.disagreements[0], default=str)[:1200])
+    if with_partition:
+        stream_partition(ctx, part_items)
+
+
+# ---------------------------------------------------------------------------------------- stream threads_resolution
+def stream_threads(ctx):
+    st = ctx.stream('threads_resolution',
+                    'number_of_threads getter for parameter values 0..40, 64, 1000 given through the BIOGEME keyword, a Parameters '
+                    'object or the setter vs the GENERATED definition number_of_threads cpu p evaluated in Coq; every (value, route) '
+                    'is a distinct decision; non-trivial = value 0 (resolution to the cpu count) or a route other than the keyword')
+    rng = ctx.sub_rng('threads')
+    base = gen_case(rng, 0, n=6)
+    reqs = [[p, route] for p in [0, 1, 2, 3, 5, 7, 16, 17, 40, 64, 1000] for route in ('kw', 'params', 'setter')]
+    reqs += [[rng.randint(0, 40), rng.choice(['kw', 'params', 'setter'])] for _ in range(ctx.n(10, 60))]
+    c = {'kind': 'threads', 'requests': reqs, **{k: base[k] for k in ('scale', 'model', 'betas', 'weight', 'cols')}}
+    res = ctx.impl_cases('c04_ll.py', [c], chunk=1)[0]
+    if res is None or 'crash' in res or 'runner' in res:
+        ctx.violation('C04/threads/crash', 'thread-count resolution: the process died', {'requests': reqs}, None, res, HOW)
+        return
+    cpu = res['cpu']
+    items, metas = [], []
+    for (p, route), r in zip(reqs, res['requests']):
+        st.record({'p': p, 'route': route}, nontrivial=(p == 0 or route != 'kw'))
+        if not r['ok']:
+            ctx.violation(f'C04/threads/exception/{route}', f'number_of_threads={p} via {route} raised', {'p': p, 'route': route}, 'a thread count', r, HOW)
+            continue
+        got = r['v']['got']
+        # property oracle: 0 -> cpu count, otherwise the value itself
+        want = cpu if p == 0 else p
+        if got != want or r['v']['param'] != p:
+            ctx.violation(f'C04/threads/resolution/{route}', f'number_of_threads for parameter value {p} (via {route}) is {got}', {'p': p, 'route': route, 'cpu_count': cpu},
+                          want, r['v'], HOW)
+        items.append(f'({cpu}, {p}, {got})')
+        metas.append((p, route, got))
+    if not items:
+        return
+    text = ('From Coq Require Import ZArith List.\nFrom BV Require Import Gen.Threads.\nImport ListNotations.\nOpen Scope Z_scope.\n'
+            "Definition chk (c : Z * Z * Z) : bool := let '(cpu, p, got) := c in number_of_threads cpu p =? got.\n"
+            'Definition cases := ' + coq_list(items) + '.\nEval vm_compute in (map chk cases).\n')
+    ok, out = ctx.coq_eval('threads_0', text)
+    bs = parse_bools(out) if ok else []
+    if not ok or len(bs) != len(items):
+        ctx.stream_broken('threads_resolution', 'model evaluation failed: ' + out[-400:])
+        return
+    for b, m in zip(bs, metas):
+        if not b:
+            st.disagree({'p': m[0], 'route': m[1], 'cpu': cpu}, 'generated number_of_threads cpu p', m[2])
+    if st.disagreements:
+        ctx.stream_broken('threads_resolution', f'{len(st.disagreements)} disagreements, first: {st.disagreements[0]}')
+
+
+# ---------------------------------------------------------------------------------------- stress (thorough)
+def stream_stress(ctx):
+    st = ctx.stream('stress_run_to_run',
+                    'NOT A PROOF: 100 repetitions x 10 thread counts on 1000-row tables, 16 processes at once; every repetition must '
+                    'return the very same doubles (f; g, h, bhhh every 4th; simulate every 25th) and every thread count a total within '
+                    'the summation bound of the exact sum; one evaluation = one calculate_likelihood call; distinct by (table, T)')
+    rng = ctx.sub_rng('stress')
+    cases = []
+    for i in range(16):
+        model = rng.choice([1, 2, 3])
+        cases.append({'kind': 'stress', 'id': f'stress{i}', 'n': rng.choice([1000, 1000, 997, 1024]), 'seed': rng.randint(1, 10 ** 6), 'model': model,
+                      'betas': {f'b{k + 1}': rng.randint(-16, 16) for k in range(model)}, 'weight': rng.choice([None, 'w', 'wexpr']),
+                      'reps': 100, 'threads': [1, 2, 3, 7, 16, 0, 64, 999, 1000, 1003]})
+    t0 = time.time()
+    res = ctx.impl_cases('c04_ll.py', cases, chunk=1, timeout=1500)
+    for c, r in zip(cases, res):
+        wit = {k: c[k] for k in ('kind', 'n', 'seed', 'model', 'betas', 'weight', 'reps', 'threads')}
+        wit['table'] = 'generated inside lib/impl/c04_ll.py case_stress from numpy default_rng(seed)'
+        if r is None or 'crash' in r or 'runner' in r:
+            ctx.violation('C04/stress/crash', 'the process died during the stress run', wit, None, r, HOW)
+            continue
+        n = r['n']
+        for run in r['runs']:
+            T = run['T']
+            w1 = dict(wit, T=T)
+            if 'build' in run or not run['res']['ok']:
+                ctx.violation('C04/stress/exception', f'stress run raised with {T} threads', w1, None, run.get('build') or run['res'], HOW)
+                continue
+            v = run['res']['v']
+            for _ in range(c['reps']):
+                st.evaluations += 1
+            st.hashes.add(f'{c["id"]}:{T}')
+            if len(st.samples) < 2:
+                st.samples.append({'id': c['id'], 'n': n, 'T': T, 'distinct_f': len(v['f']), 'distinct_derivatives': v['nd']})
+            if len(v['f']) != 1 or v['nd'] != 1:
+                ctx.violation('C04/stress/run-to-run', f'{len(v["f"])} different log likelihoods / {v["nd"]} different derivative sets in {c["reps"]} '
+                              f'repetitions with {T} threads on the same table and parameters', w1, 'one value', {'values': v['f'], 'nd': v['nd']}, HOW)
+                continue
+            base = Base(c, v['sim'], None)
+            if not base.ok or base.n != n:
+                ctx.violation('C04/stress/simulate', 'simulate: ' + (base.why or 'wrong number of rows'), w1, n, None, HOW)
+                continue
+            ex, ab, m = base.exact('f', range(n))
+            f = F(v['f_ratio'][0])
+            if f is None or abs(f - ex[0]) > sum_bound(n, ab[0], m):
+                ctx.violation('C04/stress/total', f'total with {T} threads is not within the bound of the exact sum', w1, to_float(ex[0]), v['f_ratio'][0], HOW)
+            fd = F(v['d']['f'])
+            if fd is None or abs(fd - ex[0]) > sum_bound(n, ab[0], m):
+                ctx.violation('C04/stress/total', f'calculate_likelihood_and_derivatives with {T} threads: function not within the bound', w1,
+                              to_float(ex[0]), v['d']['f'], HOW)
+    st.extra['wall_s'] = round(time.time() - t0, 1)
+    st.extra['label'] = 'stress test, NOT a proof'
+
+
+# ---------------------------------------------------------------------------------------- driver
+def run(ctx):
+    ctx.assumptions += ASSUME
+    ctx.trusted += [
+        'tie A: /verif/lib/py2v (fail-closed) for the number_of_threads getter and the tail of calculate_likelihood; a specialised '
+        'fail-closed ast extractor in lib/props/C04.py for the tail of calculate_likelihood_and_derivatives (fields function / gradient / '
+        'hessian / bhhh are the engine values, divided by float(sample size) when scaled) and a scan of the engine calls (setData, '
+        'setExpressions with the thread count and the weight signature, simulateSeveralFormulas, restoration after bootstrap, setter); '
+        'the generated number_of_threads is validated against the implementation on this run (stream threads_resolution)',
+        'the hand-written engine model Model/LogLike.v (transcribed from cythonbiogeme biogeme.cc / evaluateExpressions.cc, not in /repo) and '
+        'the harness: case generators, lib/impl/c04_ll.py, exact rational oracle (fractions.Fraction), IEEE re-computation in Python floats',
+        'the C++ engine itself, its memory safety and its real threads are NOT verified (differential runs only)',
+    ]
+    try:
+        gen_all(ctx)
+    except Untranslatable as e:
+        ctx.tie_broken('py2v:Threads', str(e))
+    try:
+        ctx.notes['engine_calls'] = scan_feed()
+    except Untranslatable as e:
+        ctx.tie_broken('scan:engine-feed', str(e))
+    ctx.build()
+    stream_threads(ctx)
+    stream_ll(ctx)
+    if not ctx.quick:
+        stream_stress(ctx)
+    if ctx.broken and not ctx.violations:
+        # failing-input search: more oracle evaluations (implementation only), fresh seed
+        saved = len(ctx.broken)
+        old = ctx.seed
+        ctx.seed = f'{old}-search'
+        try:
+            stream_ll(ctx, n_cases=ctx.n(150, 1500), with_partition=False)
+        finally:
+            ctx.seed = old
+        del ctx.broken[saved:]
+
+
+def replay(ctx, path):
+    w = json.load(open(path))
+    wit, key = w.get('witness'), w.get('key') or ''
+    import shutil
+    if not wit or 'cols' not in wit:
+        if wit and wit.get('kind') == 'stress':
+            print('replay: stress witnesses are re-run by ./check C04 --tier thorough')
+        else:
+            print('replay: this file names an obligation/stream; re-run ./check C04')
+        shutil.rmtree(ctx.scratch, ignore_errors=True)
+        return 2
+    n = len(wit['cols']['x1'])
+    c = {k: wit[k] for k in ('scale', 'model', 'betas', 'weight', 'cols')}
+    c['id'] = 'replay'
+    parts = key.split('/')
+    if len(parts) > 1 and parts[1] == 'rethread':
+        c.update(kind='rethread', pairs=[[wit['old_thread_count'], wit['new_thread_count']]] if 'old_thread_count' in wit else wit.get('pairs', RETHREAD_PAIRS))
+    elif len(parts) > 1 and parts[1] == 'bootstrap':
+        c.update(kind='bootstrap', T=wit['T'], samples=wit['bootstrap_samples'], seed=wit['seed'])
+    else:
+        T = wit.get('T')
+        c.update(kind='table', threads=[[1, 'kw']] + ([[T, 'kw'], [T, 'params']] if T is not None else []), perms=[], splits=[])
+        if 'permutation' in wit:
+            c['perms'] = [{'perm': wit['permutation'], 'T': T if T is not None else 1}]
+        if 'split' in wit:
+            c['splits'] = [{'parts': wit['split'], 'Ts': wit.get('thread_counts') or [1] * len(wit['split'])}]
+        if parts[-2:-1] == ['negative'] or 'negative' in key:
+            c['negative'] = T or 1
+    stream_ll(ctx, only=[c], with_partition=False)
+    bad = bool(ctx.violations)
+    print(json.dumps({'key': key, 'still_fails': bad,
+                      'violations': [{'key': v['key'], 'what': v['what'][:300]} for v in ctx.violations[:3]]}))
+    shutil.rmtree(ctx.scratch, ignore_errors=True)
+    return 1 if bad else 0
